@@ -2,10 +2,10 @@
 """import the sub-agents' seeded changes from their scratch worktrees into /verif/seeded/<id>/"""
 import glob, json, os, re, shutil, subprocess, sys
 ROOT = os.path.dirname(os.path.dirname(os.path.abspath(__file__)))
-for wt in sorted(glob.glob('/tmp/wt_C*') + glob.glob('/tmp/wu_C*') + glob.glob('/tmp/wv_C*') + glob.glob('/tmp/wx_C*')):
+for wt in sorted(glob.glob('/tmp/wt_C*') + glob.glob('/tmp/wu_C*') + glob.glob('/tmp/wv_C*') + glob.glob('/tmp/wx_C*') + glob.glob('/tmp/w5-C*')):
     prop = os.path.basename(wt)[3:6]
-    wave3 = os.path.basename(wt).startswith('wv_') or os.path.basename(wt).startswith('wx_')
-    wave = 4 if os.path.basename(wt).startswith('wx_') else (3 if wave3 else None)
+    wave3 = os.path.basename(wt)[:3] in ('wv_', 'wx_', 'w5-')
+    wave = 5 if os.path.basename(wt).startswith('w5-') else 4 if os.path.basename(wt).startswith('wx_') else (3 if wave3 else None)
     for d in sorted(glob.glob(os.path.join(wt, '_seeded', '*'))):
         if not os.path.isdir(d):
             continue
